@@ -270,6 +270,37 @@ def run(ctx: Ctx) -> int:
                         ctx.oblige("C02.c", ok, c, f"{k.arg} defaults to False in {name}" if ok else f"{k.arg} no longer defaults to False in {name}", fn=fn, construct=f"{k.arg} default")
     ctx.floor("C02.c-flags", n_flags, 4)
 
+    # ---------------- C02.d the equals-default shortcut does not bypass the type ---------------------------
+    # adapt_typehints returns `val` untouched when it equals `default` (bool/int/float/str compare equal across
+    # types: True == 1 == 1.0).  On the parsing path a default is only ever passed for a TEXT value (the retry
+    # with the original string); with a loaded value the shortcut would accept what the type just rejected.
+    ad2 = ctx.func("_typehints:adapt_typehints")
+    sc_if = [n for n in ad2.body if isinstance(n, ast.If) and "default" in {x.id for x in ast.walk(n.test) if isinstance(x, ast.Name)} and any(isinstance(b, ast.Return) for b in n.body)]
+    ctx.need(sc_if, "adapt_typehints: equals-default early return")
+    n_def = 0
+    for fq, fn in ctx.repo.all_funcs():
+        for c in calls_in(fn):
+            if not (isinstance(c.func, ast.Name) and c.func.id == "adapt_typehints"):
+                continue
+            dk = next((k for k in c.keywords if k.arg == "default"), None)
+            if dk is None or (isinstance(dk.value, ast.Constant) and dk.value.value is None):
+                continue
+            n_def += 1
+            mode = {k.arg: k.value for k in c.keywords}
+            if any(isinstance(mode.get(m), ast.Constant) and mode[m].value is True for m in ("serialize", "instantiate_classes")):
+                ctx.oblige("C02.d", True, c, "serialising / instantiating call: the value was validated before", fn=fn)
+                continue
+            a0 = c.args[0] if c.args else None
+            ok = isinstance(a0, ast.Name) and any(pol and ast.unparse(t).replace(" ", "") == f"isinstance({a0.id},str)" for t, pol in guard_chain(c, stop=fn))
+            ctx.oblige(
+                "C02.d",
+                ok,
+                c,
+                f"a declared default is passed to a parsing adaptation only for a text value (isinstance({a0.id}, str))" if ok else "a parsing adaptation is given the declared default for a value that need not be text: a bool / float that compares equal to the default (True == 1, 1.0 == 1) is returned as accepted although the declared type rejects it",
+                fn=fn,
+            )
+    ctx.floor("C02.d-default-calls", n_def, 3)
+
     return ctx.finish(
         explanation=(
             "(a) The Union arm of adapt_typehints is abstracted to a finite automaton over per-iteration symbols V (member accepted, break), O (string fallback appended), "
